@@ -152,3 +152,35 @@ Theorem C09_nonblocking_source_pushes_to_first_with_room :
   pkd q = KPush /\ pown q = n /\ pit q = item /\ pix q = e /\ ppc q = 0%nat /\ palive q = true.
 Proof. exact FactoryBlocks.source_nonblocking_pushes. Qed.
 Print Assumptions C09_nonblocking_source_pushes_to_first_with_room.
+
+(* the same for an index policy (ROUND_ROBIN), every world: one draw, recorded; no room on the drawn out-edge => the item is
+   dropped in that very block (one discard counted and logged for exactly this item, no edge touched); room => nothing is
+   dropped and a push process for exactly this item and exactly the drawn out-edge is started *)
+Theorem C09_nonblocking_round_robin_worker_drops_at_once :
+  forall w p,
+  let n := pown (Factory.me w p) in let nd := get_node w n in
+  ppc (Factory.me w p) = 1%nat -> noutsel nd = PRoundRobin -> nblocking nd = false -> nouts nd <> [] ->
+  (n < length (wnodes w))%nat ->
+  let k := noutptr nd in let m := length (nouts nd) in
+  e_can_put w (nth (k mod m) (nouts nd) 0%nat) = false ->
+  let w' := fst (Factory.worker_block w p) in
+  FactoryBlocks.edges_untouched w w' /\
+  wlog w' = wlog w ++ [LSel n true (k mod m); LDiscard (wnow w) n (pit (Factory.me w p))] /\
+  ndisc (get_node w' n) = S (ndisc nd).
+Proof. exact FactoryBlocks.worker_nonblocking_round_robin_drops. Qed.
+Print Assumptions C09_nonblocking_round_robin_worker_drops_at_once.
+
+Theorem C09_nonblocking_round_robin_worker_pushes_to_the_drawn_edge :
+  forall w p,
+  let n := pown (Factory.me w p) in let nd := get_node w n in
+  ppc (Factory.me w p) = 1%nat -> noutsel nd = PRoundRobin -> nblocking nd = false -> nouts nd <> [] ->
+  (n < length (wnodes w))%nat -> (p < length (wprocs w))%nat ->
+  let k := noutptr nd in let m := length (nouts nd) in
+  e_can_put w (nth (k mod m) (nouts nd) 0%nat) = true ->
+  let w' := fst (Factory.worker_block w p) in
+  FactoryBlocks.edges_untouched w w' /\ wlog w' = wlog w ++ [LSel n true (k mod m)] /\ ndisc (get_node w' n) = ndisc nd /\
+  length (wprocs w') = S (length (wprocs w)) /\
+  let q := nth (length (wprocs w)) (wprocs w') proc0 in
+  pkd q = KPush /\ pown q = n /\ pit q = pit (Factory.me w p) /\ pix q = nth (k mod m) (nouts nd) 0%nat /\ ppc q = 0%nat /\ palive q = true.
+Proof. exact FactoryBlocks.worker_nonblocking_round_robin_pushes. Qed.
+Print Assumptions C09_nonblocking_round_robin_worker_pushes_to_the_drawn_edge.
